@@ -491,7 +491,7 @@ def capacity(ctx, R):
     outer = [w for w in whiles if any(isinstance(x, ast.While) and x is not w for x in ast.walk(w))]
     inner = [w for w in whiles if w not in outer]
     if len(outer) != 1 or len(inner) != 1:
-        R.bad("C04.CAPACITY", "overlap|loop shape", where(f), "algorithm_overlap is not an outer loop over passes with one inner punting loop (%d/%d while loops)" % (len(outer), len(inner)))
+        R.undecided("C04.CAPACITY", "overlap|loop shape", where(f), "algorithm_overlap is not an outer loop over passes with one inner punting loop (%d/%d while loops): the capacity recogniser does not apply" % (len(outer), len(inner)))
         return
     wo, wi = outer[0], inner[0]
     hook = lambda fv, args, kwargs, node, st_: Opaque("REQ(%s)" % key(args[0])) if isinstance(fv, Closure) and fv.func.qual == D + ".computeRequiredWidth" else (NONE if isinstance(fv, Closure) and fv.func.qual == D + ".countIdealOverlaps" else None)
@@ -605,7 +605,7 @@ def conserve(ctx, R):
     outer = [w for w in whiles if any(isinstance(x, ast.While) and x is not w["stmt"] for x in ast.walk(w["stmt"]))]
     inner = [w for w in whiles if w not in outer]
     if len(outer) != 1 or len(inner) != 1:
-        R.bad("C04.CONSERVE", "overlap|loop shape", where(f), "unexpected loop structure")
+        R.undecided("C04.CONSERVE", "overlap|loop shape", where(f), "unexpected loop structure: the linear-flow recogniser does not apply")
         return
     wo, wi = outer[0], inner[0]
     # (a) every pop in the inner loop is followed by an append of the popped element on every path to the loop head / exit
